@@ -30,9 +30,9 @@ CLAIMS = {
    tech="Coq proof (no checked read ever fails, fuel never runs out, first-match specification) + three-way agreement of model, implementation under ASan, and an independent oracle on 4600+ inputs per run",
    text="Theorems in coq/Properties/Properties_C15.v for every byte string and every length: parse_request returns a request or the parse failure, never reads outside [0,len) and never exhausts its fuel; find_request_len is total, in bounds and returns the offset just past the first CRLFCRLF or -1; trim is total and in bounds on any string. Round trip: partial (see level_note)."),
  "C19": dict(
-   note=COMMON_NOTE + "Model: coq/Model/Pcap.v. PARTIAL: the codec (valid pcap, lengths, addresses, ports, payload, time stamps) is proved to round-trip for every list of IPv4 sends and checked byte-for-byte against aux::pcap plus an independent python parser; that the sockets call the logger exactly once per transmission with seq = bytes previously sent is part of the TCP/UDP model and is claimed with C05/C08 once those are in (DESIGN.md section 12).",
+   note=COMMON_NOTE + "Model: coq/Model/Pcap.v (codec) and tcp_send_packet / udp_send_to of coq/Model/Sim.v (what is handed to the capture). The codec (valid pcap, lengths, addresses, ports, payload, time stamps) is proved to round-trip for every list of IPv4 sends and checked byte-for-byte against aux::pcap plus an independent python parser; that every TCP transmission (first or repeated) appends exactly one record with the send time, true endpoints, payload and seq = payload bytes previously transmitted in that direction mod 2^32, starting at zero, is proved of the model's tcp_send_packet (coq/Proofs/CaptureProofs.v) and checked end to end by the second pass of the check (lossy TCP scenarios with the capture on, byte equality of the capture files). The UDP record (seq 0, one per datagram put on the wire) is covered by the correspondence only.",
    tech="Coq proof (decode . encode = id for all well-formed send lists) + byte equality of the file with the model's encoding + independent parser on the implementation's file",
-   text="Theorems in coq/Properties/Properties_C19.v: decode_file (encode_file sends) = sends for every list of IPv4 sends within the format's ranges (one record per send, in order, lengths match, true addresses/ports, payload intact, seq as given, time stamp = send time in microseconds from the epoch); records are appended one per send; time stamps are monotone in send times."),
+   text="Theorems in coq/Properties/Properties_C19.v: decode_file (encode_file sends) = sends for every list of IPv4 sends within the format's ranges (one record per send, in order, lengths match, true addresses/ports, payload intact, seq as given, time stamp = send time in microseconds from the epoch); records are appended one per send; time stamps are monotone in send times; every TCP transmission of the model logs exactly one record with the direction's byte counter as sequence number, counters start at zero."),
 }
 
 SOCK_NOTE = COMMON_NOTE + "Model: coq/Model/Sim.v + SimState.v (hand-written from src/tcp_socket.cpp, src/acceptor.cpp, src/udp_socket.cpp, src/nat.cpp, src/resolver.cpp, src/simulation.cpp, src/io_service.cpp); the whole scenario (all sockets, queues, kernel) runs in the model and in the library and the traces must be equal to the nanosecond. PARTIAL: the theorems are about the model's component functions (stated for every input/state of those functions) and, for C05-C08 and C20, about per-component state machines over event histories of any length (Proofs/RxProofs.v, TxProofs.v, AcceptProofs.v, UdpProofs.v, each with refinement lemmas to the model's socket operations); the end-to-end statement over whole executions of the composite (sender + route + receiver as one system) is carried by the correspondence and the oracle, not by a single theorem (DESIGN.md 13.7). "
